@@ -329,6 +329,7 @@ package apd
 //@ axiom div_lt(a: int, b: int, k: int): b > 0 && a < k * b ==> div(a, b) < k
 //@ axiom div_ge(a: int, b: int, k: int): b > 0 && a >= k * b ==> div(a, b) >= k
 
+//@ axiom mul_lin(a: int, b: int, k: int, p: int): a == k * b ==> a * p == k * (b * p)
 //@ axiom mul_lt(a: int, b: int, k: int): k > 0 && a < b ==> a * k < b * k
 //@ axiom mul_le(a: int, b: int, k: int): k >= 0 && a <= b ==> a * k <= b * k
 
@@ -741,3 +742,63 @@ package apd
 //@   ensures [xzero] old(bothfin(x, y) && iszero(y) && !iszero(x)) ==> (d.Form == NaN && ret0 == InvalidOperation)
 //@   ensures [remainder] wfctx(c) && old(bothfin(x, y) && !iszero(y) && !gap(x, y)) && nd10(div(old(upA(x, y)), old(upB(x, y)))) <= c.Precision ==> Rounded(c, old(x.Negative), mod(old(upA(x, y)), old(upB(x, y))), old(min(x.Exponent, y.Exponent)), d, ret0)
 //@   ensures [impossible] old(bothfin(x, y) && !iszero(y) && !gap(x, y)) && nd10(div(old(upA(x, y)), old(upB(x, y)))) > c.Precision ==> (d.Form == NaN && ret0 == DivisionImpossible)
+
+// ---------------------------------------------------------------- Reduce, Int64, comparisons
+
+//@ func (*Decimal).setBig
+//@   props C17
+//@   requires writable(b)
+//@   assigns b
+//@   ensures val(b) == signed(d.Negative, old(val(d.Coeff))) && ret == b
+
+//@ func (*Decimal).Reduce
+//@   props C19 C05 C06
+//@   requires writable(d) && inv(x)
+//@   assigns d
+//@   loop 1 invariant i >= 1 && i < 18446744073709551616 && nd >= 0 && nd < nd10(old(val(x.Coeff))) && i * pow10(nd) == old(val(x.Coeff))
+//@   loop 1 hint pow10_add(nd, 4)
+//@   loop 1 hint mul_lin(i, tdiv(i, 10000), 10000, pow10(nd))
+//@   loop 1 decreases i
+//@   loop 2 invariant i >= 1 && i < 18446744073709551616 && nd >= 0 && nd < nd10(old(val(x.Coeff))) && i * pow10(nd) == old(val(x.Coeff))
+//@   loop 2 hint pow10_add(nd, 1)
+//@   loop 2 hint mul_lin(i, tdiv(i, 10), 10, pow10(nd))
+//@   loop 2 decreases i
+//@   loop 3 invariant nd >= 0 && nd < nd10(old(val(x.Coeff))) && val(d.Coeff) >= 1 && val(d.Coeff) * pow10(nd) == old(val(x.Coeff)) && d.Form == Finite && d.Negative == old(x.Negative) && d.Exponent == old(x.Exponent)
+//@   loop 3 hint pow10_add(nd, 1)
+//@   loop 3 hint mul_lin(val(d.Coeff), tdiv(val(d.Coeff), 10), 10, pow10(nd))
+//@   loop 3 decreases val(d.Coeff)
+//@   ensures [ret] ret0 == d
+//@   ensures [special] old(x.Form) != Finite ==> (eqdec(d, x) && ret1 == 0)
+//@   ensures [zero] old(iszero(x)) ==> (d.Form == Finite && val(d.Coeff) == 0 && d.Exponent == 0 && !d.Negative && ret1 == 0)
+//@   ensures [value] old(x.Form == Finite && val(x.Coeff) != 0 && inrange(x)) ==> (d.Form == Finite && d.Negative == old(x.Negative) && ret1 >= 0 && val(d.Coeff) * pow10(ret1) == old(val(x.Coeff)) && d.Exponent == old(x.Exponent) + ret1 && mod(val(d.Coeff), 10) != 0)
+
+//@ func (*Decimal).cmpOrder
+//@   props C15
+//@   pure
+//@   ensures ret == ite(d.Negative, -(d.Form + 1), d.Form + 1)
+
+//@ define cmptotal(d: *Decimal, x: *Decimal): int = let od = ite(d.Negative, -(d.Form + 1), d.Form + 1) in let ox = ite(x.Negative, -(x.Form + 1), x.Form + 1) in ite(od < ox, -1, ite(od > ox, 1, ite(d.Form == Finite, ite(cmpsigned(d, x) != 0, cmpsigned(d, x), ite(d.Exponent < x.Exponent, ite(d.Negative, 1, -1), ite(d.Exponent > x.Exponent, ite(d.Negative, -1, 1), 0))), ite(d.Form == Infinite, 0, sgn(val(d.Coeff) - val(x.Coeff))))))
+
+//@ func (*Decimal).CmpTotal
+//@   props C15
+//@   exported
+//@   requires inv(d) && inv(x)
+//@   pure
+//@   ensures ret == cmptotal(d, x)
+
+//@ func (*Context).Cmp
+//@   props C15 C03 C05 C06 C08
+//@   exported
+//@   requires writable(d) && inv(x) && inv(y)
+//@   assigns d
+//@   ensures [nan] NaN2(x, y, d, ret0)
+//@   ensures [trap] ret1 != nil <==> trapped(c, ret0)
+//@   ensures [value] old(!isnan(x) && !isnan(y)) ==> (d.Form == Finite && d.Exponent == 0 && val(d.Coeff) == abs(old(cmpsigned(x, y))) && d.Negative == (old(cmpsigned(x, y)) < 0) && ret0 == 0)
+
+//@ lemma {C15} total_refl(a: *Decimal): inv(a) ==> cmptotal(a, a) == 0
+//@ lemma {C15} total_antisym(a: *Decimal, b: *Decimal): inv(a) && inv(b) ==> cmptotal(a, b) == -cmptotal(b, a)
+//@ lemma {C15} total_agrees_cmp(a: *Decimal, b: *Decimal): inv(a) && inv(b) && a.Form <= Infinite && b.Form <= Infinite && cmpsigned(a, b) != 0 ==> cmptotal(a, b) == cmpsigned(a, b)
+//@ lemma {C15} total_classes(a: *Decimal, b: *Decimal): inv(a) && inv(b) && ite(a.Negative, -(a.Form + 1), a.Form + 1) < ite(b.Negative, -(b.Form + 1), b.Form + 1) ==> cmptotal(a, b) == -1
+//@ lemma {C15} total_zero_iff_same(a: *Decimal, b: *Decimal): inv(a) && inv(b) && a.Form == Finite && b.Form == Finite && val(a.Coeff) > 0 && val(b.Coeff) > 0 && cmptotal(a, b) == 0 ==> a.Negative == b.Negative && a.Exponent == b.Exponent && val(a.Coeff) == val(b.Coeff)
+//@ lemma {C15} cmp_zeros_equal(a: *Decimal, b: *Decimal): inv(a) && inv(b) && iszero(a) && iszero(b) ==> cmpsigned(a, b) == 0
+//@ lemma {C15} cmp_inf_bounds(a: *Decimal, b: *Decimal): inv(a) && inv(b) && a.Form == Infinite && !a.Negative && b.Form == Finite ==> cmpsigned(a, b) == 1 && cmpsigned(b, a) == -1
